@@ -144,6 +144,21 @@ func runLiars(o *Opts) *Summary {
 			if a == b {
 				continue
 			}
+			// in every other trace one validator with a skewed clock is slow: it
+			// takes part in one exchange out of eight, so its witnesses arrive late
+			// and are often not famous
+			if t%2 == 1 && w.rng.Intn(8) != 0 {
+				slow := map[int]bool{}
+				if len(skewed) > 0 {
+					slow[skewed[0]] = true
+				}
+				if len(liars) > 0 && n >= 5 {
+					slow[liars[0]] = true
+				}
+				if slow[a] || slow[b] {
+					continue
+				}
+			}
 			m.exchange(a, b, 0, o.Full > 0 && k%o.Full == 0)
 		}
 		s.Steps += cn.steps
